@@ -69,6 +69,24 @@ Theorem C03_lexer_positions_textual_guard : forall src ds os,
 Proof. exact lexer_positions_textual_guard. Qed.
 Print Assumptions C03_lexer_positions_textual_guard.
 
+(* What the second flag means in the source text: tover is raised only if the last byte of the
+   source is a backslash -- the input class of finding F-C03-4. *)
+Theorem C03_over_has_cause : forall src ds os,
+  scan_all src ds = LOk os -> forall o, In o os -> tover (otok o) = true ->
+  getch src (zlen src - 1) = 92.
+Proof. exact over_has_cause. Qed.
+Print Assumptions C03_over_has_cause.
+
+(* Both guards textual: a source without a dangling exponent at a line end and not ending in a
+   backslash -- in particular every source the command line tool builds from files whose numbers
+   are well formed, since it appends a newline -- has every token, ILLEGAL included, reported at a
+   position that exists, and every other token at the true position of its first byte. *)
+Theorem C03_lexer_positions_textual : forall src ds os,
+  no_dangling_eol src -> getch src (zlen src - 1) <> 92 -> scan_all src ds = LOk os ->
+  forall o, In o os -> token_claim src (otok o).
+Proof. exact lexer_positions_textual. Qed.
+Print Assumptions C03_lexer_positions_textual.
+
 (* the guard can only fail after the first token *)
 Theorem C03_first_token_unaffected : forall src ds os,
   scan_all src ds = LOk os -> exists o rest, os = o :: rest /\ tbad (otok o) = false.
